@@ -213,6 +213,12 @@ theorem coordsEq_iff (x1 y1 z1 x2 y2 z2 : ℤ) :
   · rintro ⟨h1, h2⟩; exact ⟨by linear_combination h1, by linear_combination h2⟩
   · rintro ⟨h1, h2⟩; exact ⟨by linear_combination h1, by linear_combination h2⟩
 
+omit hp in
+/-- away from identity-valued operands `__eq__` is the cross-multiplied comparison (fix F13 put an identity test first) -/
+theorem eqCoords_of_ne {q x1 y1 z1 x2 y2 z2 : ℤ} (h1 : y1 ≠ 0) (h2 : z1 ≠ 0) (h3 : y2 ≠ 0) (h4 : z2 ≠ 0) :
+    eqCoords q x1 y1 z1 x2 y2 z2 = coordsEq q x1 y1 z1 x2 y2 z2 := by
+  simp [eqCoords, h1, h2, h3, h4]
+
 /-- **`PointJacobi.__eq__`** decides equality of the denoted group elements -/
 theorem pjEq_iff (hH : NoOrder2 H) {P : PJ} {other : Pt} {g h}
     (hP : PJRep p a b H P g) (hQ : PtRep p a b H other h) : pjEq P other = true ↔ g = h := by
@@ -222,12 +228,14 @@ theorem pjEq_iff (hH : NoOrder2 H) {P : PJ} {other : Pt} {g h}
     simp only [pjEq, pjEqInf_false hP, Bool.false_eq_true, false_iff, hQ]
     exact good_ne_zero hP.2.2
   | jac Q =>
-    simp only [pjEq, hP.1.eqv hQ.1, Bool.not_true, Bool.false_eq_true, if_false, hP.1.1, coordsEq_iff]
+    simp only [pjEq, hP.1.eqv hQ.1, Bool.not_true, Bool.false_eq_true, if_false, hP.1.1,
+      eqCoords_of_ne hP.y_ne hP.z_ne (PJRep.y_ne hQ) (PJRep.z_ne hQ), coordsEq_iff]
     rw [← good_equiv_iff hP.2.2 hQ.2.2, equiv_iff_cross hP.2.2.2.2.1 hQ.2.2.2.2.1]
     simp [cast3]
   | aff A =>
     have hA := AffRep.pj hH hQ false
-    simp only [pjEq, hP.1.eqv hQ.1, Bool.not_true, Bool.false_eq_true, if_false, hP.1.1, coordsEq_iff]
+    simp only [pjEq, hP.1.eqv hQ.1, Bool.not_true, Bool.false_eq_true, if_false, hP.1.1,
+      eqCoords_of_ne hP.y_ne hP.z_ne (AffRep.y_ne hH hQ) one_ne_zero, coordsEq_iff]
     rw [← good_equiv_iff hP.2.2 hA.2.2, equiv_iff_cross hP.2.2.2.2.1 hA.2.2.2.2.1]
     simp [cast3, pjFromAffine]
 
